@@ -365,6 +365,21 @@ func run(e *core.Env) {
 		if lie == "not-ipv6" {
 			pkt[0] = byte([]int{4, 0, 5, 7, 15}[tp.Intn(5)])<<4 | pkt[0]&0x0f
 		}
+		if force == nil && lie == "" && !flooding && (proto == 6 || proto == 17) && tp.Chance(1, 8) {
+			// A fragment that is not the first of its packet (fragment header, offset > 0, an
+			// identification R has never seen): it has no ports. The bytes where a first fragment
+			// would carry them are the ones drawn above - often those of a service that admits
+			// the sender. Its protocol is 44, for which no service can be defined.
+			ext := make([]byte, 8)
+			ext[0] = proto
+			m.PutUint16(ext[2:4], uint16(1+tp.Intn(8000))<<3|uint16(tp.Intn(2)))
+			copy(ext[4:8], tp.Bytes(4))
+			np := append(append(append([]byte(nil), pkt[:40]...), ext...), pkt[40:]...)
+			np[6] = 44
+			m.PutUint16(np[4:6], uint16(len(np)-40))
+			pkt, proto = np, 44
+			e.Probe("inbound_later_fragment_with_port_like_bytes")
+		}
 		f, err := sender.Inst.Builder.NewFrameV1(frameSrc, R.IP, frame.NetworkTraffic, nil, pkt, nil)
 		if err != nil {
 			e.Infra("frame: %v", err)
